@@ -137,6 +137,15 @@ class LasAppender:
                 self.dest.truncate()
             except (OSError, io.UnsupportedOperation, AttributeError):
                 pass
+        elif self.header.version.minor >= 4 and self.header.number_of_evlrs > 0:
+            # the EVLRs of the file were removed from the appender: none is written,
+            # the header must not keep pointing at the old ones
+            self.header.number_of_evlrs = 0
+            self.header.start_of_first_evlr = 0
+            try:
+                self.dest.truncate()
+            except (OSError, io.UnsupportedOperation, AttributeError):
+                pass
 
     def _write_updated_header(self) -> None:
         pos = self.dest.tell()
